@@ -85,7 +85,7 @@ CHECKS['C18'] = {
 }
 
 CHECKS['C19'] = {
-    'harnesses': ['harness.c19_sensors'],
+    'harnesses': ['harness.c19_sensors'], 'lemmas': 'c19',
     'text': 'Bounded model checking of the real PeriodicSensor / OutputPartSensor / Cms: symbolic interval, horizon, attribute-change instant and '
             'values, data capacities 1..3 and unbounded; the k-th measurement must lie at k*interval, store copies of the probed values of that '
             'moment, call both callbacks once in order, keep every probe series and the time series at the most recent min(count, c) aligned '
